@@ -120,3 +120,24 @@ KERNELS += [
     K("src_c14f_up_w_mul", "src/dataset/stats.cpp", UP + r"weights\.matrix\(\)\.array\(\)\.rowwise\(\)\s*\*=\s*(.*?);",
       [(r"flatten_w\.array\(\)\.transpose\(\)", "fw")], [("w", "Z"), ("fw", "Z")], "dstatsf", ["C14"], wrap="w * ({})"),
 ]
+
+# ---- second extension (C14_Wrap*.v): which scaling modes the wrappers of src/linear.cpp hand over ---------------------------------
+# ::fit (anonymous namespace): the training iterator gets the model's `linear::scaling` parameter, nano::upscale gets
+# iterator.scaling() for BOTH the inputs and the targets; linear_t::do_predict and linear::evaluate run their iterator with
+# scaling_type::none (missing raw inputs become 0 in raw space). Modes as integers: none 0, mean 1, minmax 2, standard 3.
+LMODES = [(r"scaling_type::none", "0"), (r"scaling_type::mean", "1"), (r"scaling_type::minmax", "2"), (r"scaling_type::standard", "3")]
+KERNELS += [
+    K("src_c14l_fit_scaling", "src/linear.cpp",
+      r"auto fit\(const linear_t& model.*?iterator\.scaling\((.*?)\);",
+      [(r"model\.parameter\(\"linear::scaling\"\)\.value<scaling_type>\(\)", "scaling_param")], [("scaling_param", "Z")], "dlinear", ["C14"]),
+    K("src_c14l_fit_fmode", "src/linear.cpp",
+      r"::upscale\(iterator\.flatten_stats\(\),\s*(.*?),\s*iterator\.targets_stats\(\)",
+      [(r"iterator\.scaling\(\)", "scaling")], [("scaling", "Z")], "dlinear", ["C14"]),
+    K("src_c14l_fit_tmode", "src/linear.cpp",
+      r"::upscale\(iterator\.flatten_stats\(\),[^;]*?iterator\.targets_stats\(\),\s*(.*?),\s*weights",
+      [(r"iterator\.scaling\(\)", "scaling")], [("scaling", "Z")], "dlinear", ["C14"]),
+    K("src_c14l_predict_mode", "src/linear.cpp",
+      r"void linear_t::do_predict\(.*?iterator\.scaling\((.*?)\);", LMODES, [], "dlinear", ["C14"]),
+    K("src_c14l_evaluate_mode", "src/linear/util.cpp",
+      r"tensor2d_t linear::evaluate\(.*?iterator\.scaling\((.*?)\);", LMODES, [], "dlinear", ["C14"]),
+]
